@@ -54,9 +54,11 @@ def judge(r):
         bad.append(("chroot-not-first", "an id change happens before chroot"))
     if ic is not None and len(names) > ic + 1:
         # start-up went on after chroot: the cwd must be moved inside the new root before anything else
+        # (wherever the server was started from: the source tree, the root, below it, a sibling of it)
         nxt = r["trace"][ic + 1]
         if nxt[0] != "chdir" or nxt[1:] != ["/"]:
-            bad.append(("no-chdir-after-chroot", "working directory not moved into the new root right after chroot"))
+            bad.append(("no-chdir-after-chroot", "working directory not moved into the new root right after chroot"
+                        + (" (started from: %s)" % r.get("start_cwd") if r.get("start_cwd") else "")))
     if r["chroot"] and r["fault"] is None:
         if ic is None:
             bad.append(("chroot-skipped", "chroot configured but not performed"))
